@@ -310,3 +310,91 @@ contract(
                  "forall(a, 0, shape(instance, 0), forall(b, 0, shape(instance, 0), self.bye_penalty >= 2 * instance[a, b] + 1))"
                  " and exists(a, 0, shape(instance, 0), exists(b, 0, shape(instance, 0), self.bye_penalty == 2 * instance[a, b] + 1))")],
 )
+
+
+# ====================================================================== C08: the declared upper bound n * days * bye_penalty
+_YD = ["n >= 1", "0 <= team", "team < n", "forall(dd, 0, D, forall(t, 0, n, -n <= y[dd, t] and y[dd, t] <= n))"]
+_DB = ["forall(a, 0, n, forall(b, 0, n, 0 <= dist[a, b] and dist[a, b] <= M))", "M >= 0", "bye == 2 * M + 1"]
+lemma("loc_range", {"y": "arr2", "team": "int", "d": "int", "n": "int", "D": "int"},
+      _YD + ["d <= D"], "0 <= loc(y, team, d) and loc(y, team, d) < n", induct="d", base="0",
+      note="a team is always at the home of some team")
+# one team: every day costs at most the bye penalty; a day with a game costs at most M, which leaves M + 1 >= M of that
+# day's allowance for the final trip home - and a team that never plays never leaves home
+lemma("team_bound", {"y": "arr2", "dist": "arr2", "bye": "int", "team": "int", "d": "int", "n": "int", "D": "int", "M": "int"},
+      _YD + _DB + ["d <= D"],
+      "0 <= tlen(y, dist, bye, team, d) and "
+      "tlen(y, dist, bye, team, d) + (0 if loc(y, team, d) == team else M) <= d * bye",
+      induct="d", base="0", uses=["loc_range(y, team, d - 1, n, D)"])
+lemma("total_bound", {"y": "arr2", "dist": "arr2", "bye": "int", "D": "int", "t": "int", "n": "int", "M": "int"},
+      ["n >= 1", "D >= 0", "t <= n", "forall(dd, 0, D, forall(tt, 0, n, -n <= y[dd, tt] and y[dd, tt] <= n))"] + _DB,
+      "0 <= total_len(y, dist, bye, D, t) and total_len(y, dist, bye, D, t) <= t * D * bye",
+      induct="t", base="0", uses=["team_bound(y, dist, bye, t - 1, D, n, D, M)", "loc_range(y, t - 1, D, n, D)"])
+
+_GPL_INV = ["forall(a, 0, n, forall(b, 0, n, 0 <= dist[a, b] and bye >= 2 * dist[a, b] + 1))",
+            "exists(a, 0, n, exists(b, 0, n, bye == 2 * dist[a, b] + 1))"]
+contract(
+    PL + ":GamePlanLength.evaluate",
+    props="C08",
+    params={"x": A2("Y")}, ghosts={"dist": A2("DM"), "bye": PYINT, "n": PYINT, "rounds": PYINT}, i64=False, returns=INT,
+    attrs={"x.instance": "dist", "self.bye_penalty": "bye"},
+    # class invariant (GamePlanLength.__init__, proved above) + what GamePlanSpace establishes about x
+    requires=_GPL_INV + ["n >= 2 and rounds >= 1 and shape(dist, 0) == n and shape(dist, 1) == n",
+                         "shape(x, 0) == (n - 1) * rounds and shape(x, 1) == n",
+                         "forall(d, 0, (n - 1) * rounds, forall(t, 0, n, -n <= x[d, t] and x[d, t] <= n))",
+                         "Y_lo < 0 and Y_hi <= 2**63 - 1 and DM_hi <= 2**63 - 1 and bye <= 2**62"],
+    calls={"game_plan_length": {"n": "n", "D": "(n - 1) * rounds"}},
+    lemmas_at={"post": ["total_bound(x, dist, bye, (n - 1) * rounds, n, n, (bye - 1) // 2)"]},
+    ensures=[tag("C08", "at-least-the-lower-bound", "result >= 0"),
+             tag("C08", "at-most-the-declared-upper-bound", "result <= n * ((n - 1) * rounds) * bye"),
+             tag("C08", "is-the-tournament-walk", "result == total_len(x, dist, bye, (n - 1) * rounds, n)")],
+)
+contract(
+    PL + ":GamePlanLength.upper_bound",
+    props="C08",
+    params={}, ghosts={"bye": PYINT, "n": PYINT, "rounds": PYINT}, i64=False, returns=PYINT,
+    attrs={"self.instance.n_cities": "n", "self.instance.rounds": "rounds", "self.bye_penalty": "bye"},
+    ensures=[tag("C08", "declared-upper-bound", "result == n * ((n - 1) * rounds) * bye")],
+)
+contract(
+    PL + ":GamePlanLength.lower_bound",
+    props="C08", params={}, i64=False, returns=PYINT,
+    ensures=[tag("C08", "declared-lower-bound", "result == 0")],
+)
+
+
+# ====================================================================== C08: the bye clause, for every plan and every position
+# y2 is y with the game of `team` on day `e` replaced by a day off.  Only that team's walk changes: it pays the bye
+# penalty 2M+1 instead of one leg (<= M), and until its next game it may stand somewhere else, which changes one later leg
+# (or the trip home) by at most M.
+_Y2 = ["n >= 1", "0 <= team", "team < n", "0 <= e", "e < D", "y[e, team] != 0",
+       "forall(dd, 0, D, forall(t, 0, n, -n <= y[dd, t] and y[dd, t] <= n))",
+       "forall(dd, 0, D, forall(t, 0, n, y2[dd, t] == (0 if (dd == e and t == team) else y[dd, t])))"]
+_P2 = {"y": "arr2", "y2": "arr2", "dist": "arr2", "bye": "int", "team": "int", "e": "int", "d": "int", "n": "int",
+       "D": "int", "M": "int"}
+lemma("bye_prefix", _P2, _Y2 + _DB + ["d <= e"],
+      "tlen(y2, dist, bye, team, d) == tlen(y, dist, bye, team, d) and loc(y2, team, d) == loc(y, team, d)",
+      induct="d", base="0", note="before the replaced day nothing changes")
+lemma("bye_other_team", dict(_P2, t="int"), _Y2 + _DB + ["d <= D", "0 <= t", "t < n", "t != team"],
+      "tlen(y2, dist, bye, t, d) == tlen(y, dist, bye, t, d) and loc(y2, t, d) == loc(y, t, d)",
+      induct="d", base="0", note="the other teams' walks do not change")
+lemma("bye_walk", _P2, _Y2 + _DB + ["d <= D"],
+      "tlen(y2, dist, bye, team, d) - tlen(y, dist, bye, team, d) >= "
+      "1 + (M if loc(y2, team, d) != loc(y, team, d) else 0)",
+      induct="d", base="e + 1",
+      uses=["bye_prefix(y, y2, dist, bye, team, e, e, n, D, M)", "loc_range(y, team, d - 1, n, D)",
+            "loc_range(y2, team, d - 1, n, D)", "loc_range(y, team, e, n, D)"],
+      note="after the replaced day the value is ahead by at least 1, and by at least M + 1 while the locations differ")
+lemma("bye_increases", {"y": "arr2", "y2": "arr2", "dist": "arr2", "bye": "int", "team": "int", "e": "int", "t": "int",
+                        "n": "int", "D": "int", "M": "int"},
+      _Y2 + _DB + ["t <= n"],
+      "total_len(y2, dist, bye, D, t) >= total_len(y, dist, bye, D, t) + (1 if t > team else 0)",
+      induct="t", base="0",
+      uses=["bye_walk(y, y2, dist, bye, team, e, D, n, D, M)", "bye_other_team(y, y2, dist, bye, team, e, D, n, D, M, t - 1)",
+            "loc_range(y, team, D, n, D)", "loc_range(y2, team, D, n, D)"],
+      note="C08 bye clause: total_len(y2, ..., n) > total_len(y, ..., n)")
+lemma("bye_clause", {"y": "arr2", "y2": "arr2", "dist": "arr2", "bye": "int", "team": "int", "e": "int", "n": "int", "D": "int"},
+      _Y2 + ["forall(a, 0, n, forall(b, 0, n, 0 <= dist[a, b] and bye >= 2 * dist[a, b] + 1))",
+             "exists(a, 0, n, exists(b, 0, n, bye == 2 * dist[a, b] + 1))"],
+      "total_len(y2, dist, bye, D, n) > total_len(y, dist, bye, D, n)",
+      uses=["bye_increases(y, y2, dist, bye, team, e, n, n, D, (bye - 1) // 2)"],
+      note="the statement's bye clause under the class invariant of GamePlanLength (bye_penalty = 2 * max distance + 1)")
